@@ -40,7 +40,12 @@ def two_basic(tier, elem='int', fmask=0, afls=((0, 1), (0, 0)), ops=None, witnes
     for op in (ops or OPS2_ALL):
         for (afl, ideq) in afls:
             for (na, nb, ca, cb) in cs:
-                js.append(two_job(op, elem, na, nb, ca, cb, afl=afl, ideq=ideq, fmask=fmask, witness=witness))
+                if elem.startswith('Tr') and ca == na and cb == nb and ca > 0 and cb > 0 and not (op.endswith('ctor') or op.endswith('ctor_alloc')):
+                    # instrumented elements, both containers inline: element buffers alias the container objects; pin the sizes (measured: > 10 GB otherwise)
+                    for (sa, sb) in sorted(set([(1, cb), (ca, 1), (ca, cb)])):
+                        js.append(two_job(op, elem, na, nb, ca, cb, afl=afl, ideq=ideq, fmask=fmask, witness=witness, sizea=sa, sizeb=sb))
+                else:
+                    js.append(two_job(op, elem, na, nb, ca, cb, afl=afl, ideq=ideq, fmask=fmask, witness=witness))
     return [j for j in js if j is not None]
 
 def rng_basic(tier, elem='int'):
